@@ -494,7 +494,7 @@ class Engine:
         if s.startswith('*'):
             projs.append(('deref',)); s = s[1:].strip()
             return self.parse_place(s)[0], self.parse_place(s)[1] + list(reversed(projs))
-        m = re.match(r'^(_\d+)$', s)
+        m = re.match(r'^(_(?:ext)?\d+)$', s)
         if not m: raise ValueError('place?? ' + s)
         return m.group(1), list(reversed(projs))
 
@@ -781,8 +781,10 @@ class Engine:
         raise NotImplementedError('rvalue ' + rv)
 
     # ---------------------------------------------------------------- running
-    def run(self, fn, args, path):
-        """generator of (path, retval | Panic)"""
+    def run(self, fn, args, path, _top=True):
+        """generator of (path, retval | Panic). For a top-level call, arguments that are references into a frame outside the engine
+        (`&mut self` of a method under test) are localised: the referent is copied into the callee frame (so that forked paths get their own copy)
+        and its final value on each returned path is published in `self.last_ext[i]` (i = argument position) right before the path is yielded"""
         if isinstance(fn, str):
             f = self.mir.find(fn)
             if f is None: raise KeyError('no MIR for ' + fn)
@@ -790,6 +792,13 @@ class Engine:
         self.stats['calls'] += 1
         self.executed.add(fn.name)
         fr = Frame(fn)
+        if _top:
+            fr.top = True
+            args = list(args)
+            for i, a in enumerate(args):
+                if isinstance(a, Ref):
+                    fr.loc[f'_ext{i}'] = self.read_place(a.frame, a.place)
+                    args[i] = Ref(fr, f'_ext{i}')
         for i, a in enumerate(args): fr.loc[f'_{i + 1}'] = a
         yield from self.run_block(fr, 'bb0', path, 0)
 
@@ -799,6 +808,7 @@ class Engine:
 
     def clone(self, fr):
         f2 = Frame(fr.fn); f2.loc = dict(fr.loc)
+        if getattr(fr, 'top', False): f2.top = True
         memo = {}
         for k, v in f2.loc.items():
             if isinstance(v, Ref) and v.frame is fr: f2.loc[k] = Ref(f2, v.place)
@@ -855,6 +865,8 @@ class Engine:
                     continue
                 if st == 'return':
                     self.stats['paths'] += 1
+                    if getattr(fr, 'top', False):
+                        self.last_ext = {int(k[4:]): v for k, v in fr.loc.items() if k.startswith('_ext')}
                     yield (path, fr.loc.get('_0', Unit())); return
                 if st == 'unreachable': return
                 if st.startswith('resume') or st.startswith('abort'): return
@@ -1080,7 +1092,7 @@ class Engine:
         fn = self.mir.find(short) or self.mir.find(callee)
         if fn is None:
             raise NotImplementedError('call ' + callee)
-        yield from self.run(fn, args, path)
+        yield from self.run(fn, args, path, _top=False)
 
 
 class Path:
@@ -1138,6 +1150,10 @@ def default_models():
     def _(e, c, a, p):
         x, = a
         yield p, I(T.ite(T.cmp('<', x.t, C(0)), T.sub(C(0), x.t), x.t), 'u' + x.ty[1:])
+
+    @reg(r'Arguments::<.*>::(from_str|new_const|new_v1)')
+    def _(e, c, a, p):
+        yield p, Opaque('fmt::Arguments')
 
     @reg(r'<impl i\d+>::signum$')
     def _(e, c, a, p):
